@@ -25,3 +25,17 @@ SPEC = {
     "assumptions": ["generated repositories use only genrule with srcs edges in up to three packages; each case starts from an empty plz-out and cache"],
     "harness_timeout": 3000,
 }
+
+MUTATIONS = """
+Dry-runs on a scratch copy (VERIF_REPO=/var/tmp/mC04a ./check C04 quick); the machine ran at load average 100-280:
+A queueTargetAsync without `t.WaitForBuild(target.Label)`  -> red: C04_facts_ok broken (skeleton) + 50 oracle failures on real runs:
+     plz fails with "cannot calculate hash for plz-out/gen/p0/t0.out: file does not exist" (exit-nonzero-without-failure,
+     needed-target-not-built), witness: trace deps=0:;1:0;2:0;3:0;4:0;5:1,2,3,4 ... ev=S0,E0 rc=2; 23 model/impl disagreements
+C IsBuilt `s <= DependencyFailed`                            -> C04_facts_ok broken (btIsBuilt differs; checked with the extractor on the
+     mutated file; the full ./check was killed by its 3000 s limit at load average 277 before reaching the verdict)
+H harmless: dep->declared, err->qerr, an added log.Debug line in queueTargetAsync -> facts regenerated identical, 9/9 obligations;
+     the run (1455 s at load >200) showed two environment-induced real-run failures (a 120 s timeout and a plz error) that
+     were not kept for inspection; since then environment-sensitive failures are confirmed by an isolated re-run before
+     they are reported (harness/cmd/c04 confirm()).
+See checks/C05.py for the failure-path mutations of the same functions.
+"""
